@@ -424,3 +424,30 @@ for _k, _t in ROUND4.items():
     PROPS[_k]["technique"] = PROPS[_k]["technique"] + "; round 4: " + _t
 
 SOURCE_COMMITS += ["7f7c280", "8156858", "3a39c59"]  # F25 ConfigEvent, F26 untokenizable source, F27 help from a fresh lenient parse
+
+
+# ---- round 5 (fourth seeding round, fourth refactor round): deciding methods added per property
+ROUND5 = {
+    "C01": "interprocedural canonical-key check of the parser's own option map (a key parameter must be bound to `.long_name` or '--' text at every call site), order of subtype vs base-type isinstance arms in the converters (C07-R13 borrowed)",
+    "C02": "every-path return analysis of the error factories behind `raise f(...)`, allow-list of the predicates that may dominate the requires-a-value raise, writer ownership of the config's parser field (C05-R8 borrowed)",
+    "C03": "reaching definition of what the empty-line arm resolves, order of the CONFIG dispatch against every read of the command configuration in the application constructor, writer ownership of the config's parser field (C05-R8 borrowed)",
+    "C04": "handler-call multiplicity along exceptional edges (a retry in a handler), partial path functions on frame file names (C20-R13 borrowed)",
+    "C05": "alias-aware detection of scratch containers (a local bound to a self attribute), writer ownership of the field behind Config.args_parser",
+    "C06": "alias filed = alias measured and validated (C07-R12 borrowed); alias-index loops followed into private helpers",
+    "C07": "order of subtype vs base-type isinstance arms whose arm rebinds the value, explicit raises outside handlers in the numeric converters, raw spelling vs normalised value in the alias classification, table-driven dispatch read through constant-loop unrolling",
+    "C08": "length bound in force (dominating tests and enclosing conditional expressions) against every constant index into a string whose length the method tests",
+    "C09": "switch families on the dominating edges of each effect in create_io (one family per effect), threshold table of the level predicates, application argument at every construction of a Command",
+    "C10": "positional parameter order of overriding flagged write methods against the overridden one",
+    "C11": "parameter forwarding of the IO / Output facades (every parameter of a forwarding method appears in the forwarded call)",
+    "C12": "liveness of configuration reads across the CONFIG dispatch in the application constructor, sentinel form of the optional event-name parameter in every query",
+    "C13": "the consumer of the lazily parsed result lies inside the lenient window (no disable reaches it)",
+    "C14": "wrap width = the column-length parameter, decision form of the list-extension guard (normalised threshold), instance-level memo keys (CACHEKEY), module-level instances never configured per call (C17-R13)",
+    "C15": "stride of row-counting loops over the paired content list, environment width not kept in the Terminal object",
+    "C16": "membership (not truthiness / .get) decides whether a message exists, interprocedural overwrite gate (a private helper is gated when every call site is)",
+    "C17": "publication order of lazily created class-slot objects (no attribute store on the object after the slot store), class- / module-level containers of mutable package instances, module-level instances never configured per call, leniency pairing for listeners inside the config package",
+    "C18": "whole-object hand-over of the Input in every section(), order of tell() against the seek to the end in append(), switch independence in create_io (C09-R18 borrowed), validator rules follow its own helper methods and comprehensions",
+    "C19": "truthiness guard on the store of the end message, arity of every join of the spinner thread (a bounded join is no join), direct aliases of the output in the two-write frame",
+    "C20": "partial path functions under a handler, syntactic form of the simple-mode test, keyword check of every Highlighter construction, agreement of the code_snippet call sites, strip before split in the highlighter",
+}
+for _k, _t in ROUND5.items():
+    PROPS[_k]["technique"] = PROPS[_k]["technique"] + "; round 5: " + _t
